@@ -44,43 +44,110 @@ def run_case(case):
     return run_profiles(case)
 
 
+PARAMS = ("closure", "n", "zm", "ws", "wd", "L", "prsc", "forcing", "gridp", "tke", "ufac", "z0rat", "zmxfac", "hfac")
+
+
+def draw(rng, only=None, P=None):
+    """Primitive draws of one vertical_profiles call; with `only`, re-draw just that one (a sibling call that differs in one argument)."""
+    P = dict(P or {})
+
+    def want(k):
+        return only is None or only == k
+
+    if want("closure"):
+        P["closure"] = str(rng.choice(["MOST", "MOSTM", "CONSTANT", "OAAHOC"]))
+    if want("n"):
+        P["n"] = int(rng.choice([1, 2, 3, 5, 8, 16, 33, 64])) if rng.random() < 0.5 else int(rng.integers(1, 65))
+    if want("zm"):
+        P["zm"] = float(10 ** rng.uniform(0, math.log10(50)))
+    if want("ws"):
+        P["ws"] = float(rng.uniform(0.5, 15))
+    if want("wd"):
+        P["wd"] = float(rng.choice([0, 90, 180, 270, rng.uniform(0, 360)]))
+    if want("L"):
+        P["L"] = float(rng.choice([-1, 1]) * 10 ** rng.choice([rng.uniform(math.log10(5), 4), rng.uniform(4, 9), 9.0]))
+    if want("prsc"):
+        P["prsc"] = float(rng.choice([1.0, rng.uniform(0.5, 1.5)]))
+    if want("forcing"):
+        P["forcing"] = str(rng.choice(["ustar", "z0"]))
+    if want("gridp"):
+        P["gridp"] = str(rng.choice(["default", "default", "domain_height", "stretch", "both"]))
+    if want("tke"):
+        P["tke"] = float(rng.uniform(0.2, 3.0))
+    if want("ufac"):
+        P["ufac"] = float(rng.uniform(0.03, 0.2))
+    if want("z0rat"):
+        P["z0rat"] = float(10 ** rng.uniform(-4, math.log10(0.3)))
+    if want("zmxfac"):
+        P["zmxfac"] = float(rng.uniform(1.05, 12.0))
+    if want("hfac"):
+        P["hfac"] = float(rng.uniform(0.5, 8.0))
+    return P
+
+
 def run_profiles(case):
+    """One base call and two sibling calls in the same process, each differing from the base in exactly one argument
+    (a memo keyed on a proper subset of the arguments would hand a sibling the base's profiles); every call is judged
+    against the harness's own formulas for its own arguments."""
+    from vlib import gen
+
+    rng = gen.rng_for(case["seed"], "C09", case["idx"])
+    P = draw(rng)
+    out = run_one(case, P, case["idx"] % 4 == 0)
+    nsib = 0
+    for _ in range(2):
+        k = str(rng.choice(["n", "zm", "ws", "wd", "L", "prsc", "closure", "ufac", "z0rat", "zmxfac", "hfac", "tke", "forcing"]))
+        P2 = draw(rng, only=k, P=P)
+        r2 = run_one(case, P2, False, roundtrip=False)
+        if not r2.get("nontrivial"):
+            continue
+        nsib += 1
+        for v in r2.get("violations", []):
+            v["sibling_differs_in"] = k
+        if not out.get("nontrivial"):
+            out = r2
+            continue
+        out["evals"] += r2["evals"]
+        out["violations"] = out.get("violations", []) + r2.get("violations", [])
+        for k_, v_ in r2.get("resid", {}).items():
+            out["resid"][k_] = max(out["resid"].get(k_, 0.0), v_)
+        for k_, v_ in r2.get("counters", {}).items():
+            out["counters"][k_] = out["counters"].get(k_, 0) + v_
+        out["buckets"][f"sibling_differs_in:{k}"] = out["buckets"].get(f"sibling_differs_in:{k}", 0) + 1
+    if out.get("nontrivial"):
+        out["counters"]["sibling_calls"] = nsib
+    return out
+
+
+def run_one(case, P, do_int, roundtrip=True):
     import warnings
 
     import numpy as np
     from bldfm.pbl_model import vertical_profiles
     from vlib import gen
 
-    rng = gen.rng_for(case["seed"], "C09", case["idx"])
     viol = []
     resid = {}
     counters = {"vertical_profiles_calls": 0, "roundtrips": 0}
 
-    closure = str(rng.choice(["MOST", "MOSTM", "CONSTANT", "OAAHOC"]))
-    n = int(rng.choice([1, 2, 3, 5, 8, 16, 33, 64])) if rng.random() < 0.5 else int(rng.integers(1, 65))
-    zm = float(10 ** rng.uniform(0, math.log10(50)))
-    ws = float(rng.uniform(0.5, 15))
-    wd = float(rng.choice([0, 90, 180, 270, rng.uniform(0, 360)]))
+    closure, n, zm, ws, wd, L, prsc, gridp = (P[k] for k in ("closure", "n", "zm", "ws", "wd", "L", "prsc", "gridp"))
     um, vm = ws * math.cos(math.radians(wd)), ws * math.sin(math.radians(wd))
-    L = float(rng.choice([-1, 1]) * 10 ** rng.choice([rng.uniform(math.log10(5), 4), rng.uniform(4, 9), 9.0]))
-    prsc = float(rng.choice([1.0, rng.uniform(0.5, 1.5)]))
-    forcing = "ustar" if closure == "OAAHOC" else str(rng.choice(["ustar", "z0"]))
-    gridp = str(rng.choice(["default", "default", "domain_height", "stretch", "both"]))
+    forcing = "ustar" if closure == "OAAHOC" else P["forcing"]
     kw = dict(mol=L, prsc=prsc, closure=closure)
     tke = None
     if closure == "OAAHOC":
-        tke = float(rng.uniform(0.2, 3.0))
+        tke = P["tke"]
         kw["tke"] = tke
     psi_zm = float(gen.psi_m(zm / L))
     if forcing == "ustar":
-        ustar = float(ws * rng.uniform(0.03, 0.2))
+        ustar = float(ws * P["ufac"])
         kw["ustar"] = ustar
         if closure == "OAAHOC":
             z0 = zm * math.exp(-CM * CL * ws * math.sqrt(tke) / ustar**2)
         else:
             z0 = zm * math.exp(-KAP * ws / ustar + psi_zm)
     else:
-        z0 = float(zm * 10 ** rng.uniform(-4, math.log10(0.3)))
+        z0 = float(zm * P["z0rat"])
         kw["z0"] = z0
         den = math.log(zm / z0) + psi_zm
         ustar = ws * KAP / den if den > 0 else -1.0
@@ -89,10 +156,10 @@ def run_profiles(case):
     h = 2 * zm
     zmx = 2 * zm
     if gridp in ("domain_height", "both"):
-        zmx = float(zm * rng.uniform(1.05, 12.0))
+        zmx = float(zm * P["zmxfac"])
         kw["domain_height"] = zmx
     if gridp in ("stretch", "both"):
-        h = float(zm * rng.uniform(0.5, 8.0))
+        h = float(zm * P["hfac"])
         kw["stretch"] = h
 
     with warnings.catch_warnings():
@@ -183,7 +250,7 @@ def run_profiles(case):
         if not (np.array_equal(Kx, Kz, equal_nan=True) and np.array_equal(Ky, Kz, equal_nan=True)):
             bad("isotropic_closure_not_isotropic")
     # ---- 4. round trip ustar -> z0 -> ustar
-    if closure != "OAAHOC" and ok_grid:
+    if closure != "OAAHOC" and ok_grid and roundtrip:
         kw2 = {k: v_ for k, v_ in kw.items() if k not in ("ustar", "z0")}
         kw2["z0" if forcing == "ustar" else "ustar"] = float(z[0]) if forcing == "ustar" else ustar
         with warnings.catch_warnings():
@@ -205,7 +272,7 @@ def run_profiles(case):
             if not e <= rt_tol:
                 bad("ustar_z0_roundtrip", rel=e, tol=rt_tol)
     # integer-typed arguments (what YAML or a script yields for 'z_m: 10', 'wind: (3, 1)') must give the float-typed result
-    if case["idx"] % 4 == 0:
+    if do_int:
         zi = max(2, int(round(zm)))
         wi = (int(round(um)) or 1, int(round(vm)) or -1)
         Li = int(round(L)) if abs(L) < 1e8 else 10**9
